@@ -46,10 +46,12 @@ type recorder struct {
 	inCall map[int]bool
 	// runaway guard: a pool over a finite profile performs a bounded number of operations; far beyond that bound the run
 	// is cut (observation res=runaway) instead of spinning until the time limit
-	shots     int // Shoot calls so far
-	maxEvs    int
-	onRunaway func()
-	runaway   bool
+	shots      int // Shoot calls so far
+	guns       int // guns made for this pool (the first one is the warm-up gun of instancePool.Run)
+	gunsClosed int // instance guns closed = instances whose runNewInstance is on its way out (after Run returned)
+	maxEvs     int
+	onRunaway  func()
+	runaway    bool
 }
 
 func newRecorder() *recorder {
